@@ -111,6 +111,10 @@ Section Reg.
       draws given *)
   Definition sum_list (l : list F) : F := fold_left (fadd OP) l (f0 OP).
 
+  (** [x.round() as isize]: the cast saturates at the largest machine integer (only reached by shot counts of
+      2^63 and more); the lower end is covered by [max(0)] *)
+  Definition sat63 (z : Z) : Z := Z.min z (2 ^ 63 - 1).
+
   Definition raw_cells (p nv : list F) (count : N) : list N :=
     let c := fofN OP count in
     let c_sqrt := fsqrt OP c in
@@ -118,7 +122,7 @@ Section Reg.
     map (fun pn : F * F =>
            let '(pi, ni) := pn in
            let x := fadd OP (fmul OP c pi) (fmul OP c_sqrt (fsub OP ni (fmul OP n_sum pi))) in
-           Z.to_N (Z.max (fround OP x) 0))
+           Z.to_N (Z.max (sat63 (fround OP x)) 0))
         (combine p nv).
 
   Definition sumN (l : list N) : N := fold_left N.add l 0.
